@@ -9,7 +9,7 @@
    was given (shared by documented design), so an in-place edit of that object is visible through
    `target` while the fitted state stays as it was until set_target is called again. *)
 EXTENDS Mat, TLC, Json, CSV, IOUtils
-CONSTANTS Src, Targets, Configs, D, MaxAls, EditVals, PairAll
+CONSTANTS Src, Targets, Configs, D, MaxAls, EditVals, PairAll, WithPinv
 VARIABLES vals,   \* target object id (1, 2) -> index into Targets : current content of the caller's arrays
           als,    \* sequence of alignment records [cfg, tobj, fit, fitval]
           hist
@@ -100,7 +100,12 @@ CopyAl(a) == /\ Len(hist) < D /\ Len(als) < MaxAls
              /\ als' = Append(als, IF IsSymCfg(als[a].cfg) THEN [als[a] EXCEPT !.tobj = 0, !.pval = TVal(als[a], vals)] ELSE als[a])
              /\ UNCHANGED vals
              /\ hist' = Append(hist, Rec("copy", a, 0, 0, ""))
-Next == \/ \E a \in 1..Len(als), o \in GoodObjs \cup BadObjs : SetTarget(a, o)
+\* pseudoinverse (C04): an observation - nothing changes; the inverse must undo the CURRENT fit from both sides and have
+\* the current end points exchanged, however often the alignment was retargeted before
+Pinv(a) == /\ Len(hist) < D /\ UNCHANGED <<vals, als>>
+           /\ hist' = Append(hist, Rec("pinv", a, 0, 0, ""))
+Next == \/ \E a \in 1..Len(als) : WithPinv /\ Pinv(a)
+        \/ \E a \in 1..Len(als), o \in GoodObjs \cup BadObjs : SetTarget(a, o)
         \/ \E o \in GoodObjs, v \in EditVals : Edit(o, v)
         \/ \E a \in 1..Len(als) : CopyAl(a)
 Spec == Init /\ [][Next]_vars
